@@ -26,6 +26,9 @@ type stubRM struct {
 	calls   map[string]int
 	wrongRM int
 	retired bool // another manager has been registered for this branch type since
+	// working: called (outside the lock) while the manager "works" on a request; lets a case do something
+	// between the arrival of a request and its answer
+	working func(key string)
 }
 
 func (s *stubRM) answer(kind string, r rm.BranchResource) (branch.BranchStatus, error) {
@@ -37,7 +40,11 @@ func (s *stubRM) answer(kind string, r rm.BranchResource) (branch.BranchStatus, 
 		s.wrongRM++
 	}
 	retired := s.retired
+	working := s.working
 	s.mu.Unlock()
+	if working != nil {
+		working(key)
+	}
 	if retired {
 		return branch.BranchStatusUnknown, errors.New("this manager has been replaced")
 	}
@@ -375,4 +382,60 @@ func runC15TwoCoordinators(c *Ctx, coord *Coord, stubs map[int]*stubRM) {
 		b.CloseFromPeer()
 	}
 	coord.ResetLog()
+	// the session the request arrived on goes away WHILE the manager works; a session to another coordinator is
+	// open: the status the manager returned still goes out (on the session that is left), once
+	if cid := "two-asker-gone"; c.Want(cid) {
+		var a *FakeSession
+		for _, s := range coord.Sessions() {
+			if !s.IsClosed() && s.addr == coord.Addr {
+				a = s
+			}
+		}
+		if a == nil {
+			a = coord.OpenSession()
+		}
+		b := coord.OpenSessionAt("10.9.9.9:8091")
+		time.Sleep(30 * time.Millisecond)
+		coord.ResetLog()
+		xid := "10.7.7.7:8091:4100"
+		st := stubs[int(branch.BranchTypeTCC)]
+		st.mu.Lock()
+		st.script[xid+"/9"] = fmt.Sprintf("s%d", int(branch.BranchStatusPhasetwoCommitted))
+		st.working = func(key string) {
+			if key == xid+"/9" {
+				b.CloseFromPeer() // the asker is gone before the answer is ready
+			}
+		}
+		st.mu.Unlock()
+		id := int32(880100)
+		crash := safeCall(func() {
+			coord.SendBranchCommit(b, id, xid, 9, branch.BranchTypeTCC, "res0", []byte("{}"))
+		})
+		answers := 0
+		coord.WaitFor(time.Second, func(l []LoggedReq) bool {
+			answers = 0
+			for _, e := range l {
+				if e.Kind == "BranchCommitResponse" && e.Msg.ID == id {
+					answers++
+				}
+			}
+			return answers > 0
+		})
+		st.mu.Lock()
+		st.working = nil
+		st.mu.Unlock()
+		c.Out.Case(cid, "C15", "skip", "skip")
+		switch {
+		case crash != "":
+			c.Out.Oracle(cid, false, "crash", crash)
+		case answers != 1:
+			c.Out.Oracle(cid, false, "no_reply", fmt.Sprintf("%d responses with the request's id although the manager returned a status and a session is open", answers))
+		default:
+			c.Out.Oracle(cid, true, "", "")
+		}
+		c.Out.Tag(cid, "nontrivial=1")
+		c.Out.Count("two-coordinators.asker-gone")
+		_ = a
+		coord.ResetLog()
+	}
 }
